@@ -149,6 +149,35 @@ theorem fieldRules_builtin (r : Bytes) (run) (rs : List Bytes) (d : Bool) (st : 
 
 end struct
 
+/-! ### the field loop -/
+
+/-- a field that is unexported, of type `time.Time`, or without rules is skipped -/
+theorem fieldsLoop_skip (cfg : StructCfg) (sn : Bytes) (cus : RM) (name : Bytes) (ex tt : Bool)
+    (tags : List (Bytes × Bytes)) (v : GoVal) (rest : Fields) (st : WSt)
+    (h : ex = false ∨ tt = true ∨ (rmGet cus name = [] ∧ tagGet tags cfg.tag = [])) :
+    fieldsLoop cfg sn cus (.cons name ex tt tags v rest) st = fieldsLoop cfg sn cus rest st := by
+  rw [fieldsLoop]
+  rcases h with h | h | ⟨h1, h2⟩
+  · simp [h]
+  · simp [h]
+  · simp [h1, h2]
+
+/-- the rule list of a field: the rule set's rule for that name if non-empty, else the tag rule -/
+def effectiveRule (cfg : StructCfg) (cus : RM) (name : Bytes) (tags : List (Bytes × Bytes)) : Bytes :=
+  if !(rmGet cus name).isEmpty then rmGet cus name else tagGet tags cfg.tag
+
+theorem fieldsLoop_rules (cfg : StructCfg) (sn : Bytes) (cus : RM) (name : Bytes)
+    (tags : List (Bytes × Bytes)) (v : GoVal) (rest : Fields) (st : WSt) :
+    fieldsLoop cfg sn cus (.cons name true false tags v rest) st
+      = ((if (effectiveRule cfg cus name tags).isEmpty then pure st
+          else fieldRules cfg.ext cfg.fns sn sn name v
+            (fun isValidTvKind skip cusMsg st => existTop cfg sn name v isValidTvKind skip cusMsg st)
+            (validNamesSplit (effectiveRule cfg cus name tags)) false st) >>= fun st1 => fieldsLoop cfg sn cus rest st1) := by
+  rw [fieldsLoop]; simp [effectiveRule]
+  split
+  · split <;> simp_all
+  · rfl
+
 /-! ### function resolution (`getValidFn`): per-call table, then registered functions, then built-ins -/
 
 theorem resolve_local (t : FnTables) (key mk : Bytes) (h : t.localFns.lookup key = some mk) :
@@ -253,6 +282,25 @@ theorem flatRules_custom (r mk : Bytes) (rs : List Bytes) (st : WSt) (hr : r ≠
   rw [hp] at hk
   simp only at hk
   simp only [hk, hz, Bool.false_eq_true, if_false]
+
+/-- a structural rule other than `required`: `either` / `botheq` register the value (Map, Url); anything
+else (`exist`, or groups under `Var`) is "no support": one clause -/
+theorem flatRules_structural_other (r : Bytes) (rs : List Bytes) (st : WSt) (hr : r ≠ [])
+    (hk : resolveFn c.fns (parseValidNameKV r).1 = .structural) (hreq : (parseValidNameKV r).1 ≠ requiredB) :
+    flatRules c scope nameErr nameClause v (r :: rs) st
+      = flatRules c scope nameErr nameClause v rs
+          (if c.supportsGroups && ((parseValidNameKV r).1 == eitherB || (parseValidNameKV r).1 == bothEqB) then
+             { st with members := st.members ++ [{ scope := scope, validName := r, objName := [], fieldName := nameErr, val := v }] }
+           else st.write (getJoinFieldErr [] nameClause (b! "valid \"" ++ r ++ b! "\" is no support"))) := by
+  rw [flatRules]
+  simp only [isEmpty_false hr, Bool.false_eq_true, if_false]
+  rcases hp : parseValidNameKV r with ⟨k, a, m⟩
+  rw [hp] at hk hreq
+  simp only at hk hreq
+  simp only [hk]
+  have : (k == requiredB) = false := by simpa using hreq
+  simp only [this, Bool.false_eq_true, if_false]
+  split <;> rfl
 
 end flat
 
